@@ -9,6 +9,7 @@ import Hw.Topo.RenderLemmas
 import Hw.Topo.RestrictTyping
 import Hw.Topo.RestrictSide
 import Hw.Topo.RestrictWF
+import Hw.Topo.RestrictSurvive
 import Hw.Attr.MemAttrsState
 namespace Hw.Props.C08
 open Hw.Topo Hw.Topo.Restrict Hw.Gen.Restrict
@@ -493,8 +494,9 @@ theorem C08_repeat_preserves_typing (t : Topo) (calls : List (CSet × Nat))
     the model on every call) satisfies SetsOK and the typing, and its root is the Machine object.  (`treeOf` fails only on a
     dump whose objects are not listed parents-first, which is reported as MODEL-INPUT-ERROR.) -/
 theorem C08_wf_implies_okT (d : Dump) (h : WF d) (t : Tree) (ht : treeOf d = .ok t) :
-    okT t = true ∧ typedT t = true ∧ t.obj.type = tMACHINE ∧ isNormal t.obj.type = true :=
-  wf_treeOf h t ht
+    okT t = true ∧ typedT t = true ∧ t.obj.type = tMACHINE ∧ isNormal t.obj.type = true ∧ puLeafT t = true ∧
+    puSetsT t = true ∧ numaSetsT t = true :=
+  wf_treeOf_full h t ht
 
 /-- … hence the set, link and level theorems above (C08_sets_exact_whole, C08_restrict_links, C08_restrict_levels, C08_repeat_exact)
     apply to every history of calls that starts from a well-formed topology, with no hypothesis besides `WF d` -/
@@ -503,6 +505,59 @@ theorem C08_wf_restrict_typing (d : Dump) (h : WF d) (t : Tree) (ht : treeOf d =
     okT T.tree = true ∧ typedT T.tree = true ∧ isNormal T.tree.obj.type = true := by
   have := wf_treeOf h t ht
   exact C08_repeat_preserves_typing _ calls this.1 this.2.1 this.2.2.2
+
+/-! ### A8: PU / NUMA survivors, exactly (hypotheses: consequences of WF, see C08_wf_implies_okT) -/
+
+/-- (3) **PUs after a successful restrict by cpuset S** (tree recursion, i.e. up to level merging): every PU of the result still
+    has cpuset = complete cpuset = {os_index} with os_index ∈ S, and for every PU identity `a` (gp_index, type, os_index,
+    attributes) the result holds exactly the previous PUs of that identity if `a.os_index ∈ S` and none otherwise: the PUs are
+    EXACTLY the previous PUs whose os_index is in S.  (Through level merging the statement is evaluated by the driver on the real
+    AFTER dump of every call; see C08_merge_keeps_pus for the proved part.) -/
+theorem C08_pus_exact (t : Topo) (s : CSet) (flags : Nat) (p : Params) (hp : plan t s flags = some p) (hb : p.byNode = false)
+    (t' : Topo) (hc : restrictCore t p = some t') (hok : okT t.tree = true) (hty : typedT t.tree = true)
+    (hleaf : puLeafT t.tree = true) (hsets : puSetsT t.tree = true) :
+    (∀ x ∈ objsT t'.tree, x.type = tPU → x.cpuset = osBit x ∧ x.ccpuset = osBit x ∧ s.mem x.osidx.toNat = true) ∧
+    (∀ a : RObj, a.type = tPU → cnt ident (ident a) (objsT t'.tree) =
+        if s.mem a.osidx.toNat = true then cnt ident (ident a) (objsT t.tree) else 0) :=
+  pus_exact_core t s flags p hp hb t' hc hok hty hleaf hsets
+
+/-- (3) **level merging never removes, duplicates or changes a non-normal object** (NUMA node, memory-side cache, I/O, Misc):
+    the non-normal objects of `keepStructure filters t` are exactly those of `t`, complete sets included, for every typed tree
+    and every filter table -/
+theorem C08_merge_keeps_nonnormal (filters : List Nat) (t : Tree) (h : typedT t = true) (hr : isNormal t.obj.type = true)
+    (x : RObj) (hx : isNormal x.type = false) :
+    (x ∈ objsT (keepStructure filters t) ↔ x ∈ objsT t) ∧
+    cnt ident (ident x) (objsT (keepStructure filters t)) = cnt ident (ident x) (objsT t) :=
+  ⟨keepStructure_nonnormal_mem filters t h hr x hx, cntEq_ident_keepStructure filters t h hr x hx⟩
+
+/-- (3) **NUMA nodes under a restrict by cpuset, whole call** (level merging included): a NUMA node disappears ONLY IF
+    REMOVE_CPULESS is given and it is CPU-less afterwards — every NUMA node for which that does not hold (`protNUMA`) is a NUMA
+    node of the result -/
+theorem C08_numa_survive (t : Topo) (s : CSet) (flags : Nat) (p : Params) (hp : plan t s flags = some p) (hb : p.byNode = false)
+    (hret : (restrict t s flags).2 = .ok) (hty : typedT t.tree = true) (hr : isNormal t.tree.obj.type = true)
+    (a : RObj) (ha : a.type = tNUMA) :
+    cnt ident (ident a) ((objsT t.tree).filter (fun o => o.type == tNUMA && !(p.rmExempt && (shrinkG p o).cpuset == 0))) ≤
+      cnt ident (ident a) (objsT (restrict t s flags).1.tree) :=
+  numa_survive_whole t s flags p hp hb hret hty hr a ha
+
+/-- (3) **the BYNODESET mirror, whole call** (level merging included): after a successful restrict by nodeset S the NUMA nodes are
+    EXACTLY the previous NUMA nodes whose os_index is in S, each still with nodeset = complete nodeset = {os_index} -/
+theorem C08_numas_exact_bynodeset (t : Topo) (s : CSet) (flags : Nat) (p : Params) (hp : plan t s flags = some p)
+    (hb : p.byNode = true) (hret : (restrict t s flags).2 = .ok) (hok : okT t.tree = true) (hty : typedT t.tree = true)
+    (hr : isNormal t.tree.obj.type = true) (hsets : numaSetsT t.tree = true) :
+    (∀ x ∈ objsT (restrict t s flags).1.tree, x.type = tNUMA →
+        x.nodeset = osBit x ∧ x.cnodeset = osBit x ∧ s.mem x.osidx.toNat = true) ∧
+    (∀ a : RObj, a.type = tNUMA → cnt ident (ident a) (objsT (restrict t s flags).1.tree) =
+        if s.mem a.osidx.toNat = true then cnt ident (ident a) (objsT t.tree) else 0) :=
+  numas_exact_whole t s flags p hp hb hret hok hty hr hsets
+
+/-- (3) … and a PU disappears from the tree recursion of a restrict by nodeset only if REMOVE_MEMLESS is given and its nodeset is
+    empty afterwards -/
+theorem C08_pu_survive_bynodeset (t : Topo) (p : Params) (hb : p.byNode = true) (t' : Topo) (hc : restrictCore t p = some t')
+    (hty : typedT t.tree = true) (a : RObj) :
+    cnt ident (ident a) ((objsT t.tree).filter (fun o => o.type == tPU && !(p.rmExempt && (shrinkG p o).nodeset == 0))) ≤
+      cnt ident (ident a) (objsT t'.tree) :=
+  pu_survive_core t p hb t' hc hty a
 
 /-! ### non-vacuity and the reorder-without-removal case -/
 
@@ -539,5 +594,16 @@ example : WF demoDump := by decide +kernel
 example : (match treeOf demoDump with | .ok t => (objsT t).map (·.gp) == [1, 2, 3, 9, 4, 5, 6] | .error _ => false) = true := by
   decide +kernel
 example : okT demo.tree = true ∧ typedT demo.tree = true ∧ isNormal demo.tree.obj.type = true := by decide +kernel
+
+/-- non-vacuity of C08_pus_exact / C08_numa_survive (demo, restrict to PU 1) and of C08_numas_exact_bynodeset (demoMerge, NUMA 0) -/
+example : plan demo ⟨2, false⟩ flagAdaptMisc = some ⟨⟨2, true⟩, CSet.empty, false, false, false, true⟩ ∧
+    (restrictCore demo ⟨⟨2, true⟩, CSet.empty, false, false, false, true⟩).isSome = true ∧
+    okT demo.tree = true ∧ typedT demo.tree = true ∧ puLeafT demo.tree = true ∧ puSetsT demo.tree = true ∧
+    ((objsT (restrict demo ⟨2, false⟩ flagAdaptMisc).1.tree).filter (fun o => o.type == tPU)).map (·.osidx) = [1] := by decide +kernel
+example : (plan demoMerge ⟨1, false⟩ (flagByNodeset ||| flagRemoveMemless)).isSome = true ∧
+    okT demoMerge.tree = true ∧ typedT demoMerge.tree = true ∧ isNormal demoMerge.tree.obj.type = true ∧
+    numaSetsT demoMerge.tree = true ∧
+    ((objsT (restrict demoMerge ⟨1, false⟩ (flagByNodeset ||| flagRemoveMemless)).1.tree).filter (fun o => o.type == tNUMA)).map (·.osidx) = [0] := by
+  decide +kernel
 
 end Hw.Props.C08
